@@ -411,12 +411,17 @@ out:
  * There is one unavailable data element, so any available parity connected to
  * the data element is sufficient to decode.
  */
-static void decode_one_data(xor_code_t *code_desc, char **data, char **parity, int *missing_data, int *missing_parity, int blocksize)
+static int decode_one_data(xor_code_t *code_desc, char **data, char **parity, int *missing_data, int *missing_parity, int blocksize)
 {
   // Verify that missing_data[1] == -1?
   int data_index = missing_data[0];
   int parity_index = index_of_connected_parity(code_desc, data_index, missing_parity, missing_data);
   int i;
+
+  if (parity_index < 0) {
+    // No surviving parity covers this element: not decodable
+    return -2;
+  }
 
   // Copy the appropriate parity into the data buffer
   fast_memcpy(data[data_index], parity[parity_index-code_desc->k], blocksize);
@@ -426,6 +431,8 @@ static void decode_one_data(xor_code_t *code_desc, char **data, char **parity, i
       xor_bufs_and_store(data[i], data[data_index], blocksize);
     }
   }
+
+  return 0;
 }
 
 static int decode_two_data(xor_code_t *code_desc, char **data, char **parity, int *missing_data, int *missing_parity, int blocksize)
@@ -456,9 +463,7 @@ static int decode_two_data(xor_code_t *code_desc, char **data, char **parity, in
       xor_bufs_and_store(data[i], data[data_index], blocksize);
     }
   }
-  decode_one_data(code_desc, data, parity, missing_data, missing_parity, blocksize);
-
-  return 0;
+  return decode_one_data(code_desc, data, parity, missing_data, missing_parity, blocksize);
 }
 
 static int decode_three_data(xor_code_t *code_desc, char **data, char **parity, int *missing_data, int *missing_parity, int blocksize)
@@ -535,6 +540,7 @@ static int decode_three_data(xor_code_t *code_desc, char **data, char **parity, 
 
     if (data_index < 0) {
      fprintf(stderr, "Shit is broken, cannot construct equations to repair 3 failures!!!\n");
+      free(parity_buffer);
       return -2;
     }
     // Copy the appropriate parity into the data buffer
@@ -569,7 +575,7 @@ int xor_hd_decode(xor_code_t *code_desc, char **data, char **parity, int *missin
     case FAIL_PATTERN_1D_0P:
     {
       int *missing_data = get_missing_data(code_desc, missing_idxs);
-      decode_one_data(code_desc, data, parity, missing_data, NULL, blocksize);
+      ret = decode_one_data(code_desc, data, parity, missing_data, NULL, blocksize);
       free(missing_data);
       break;
     }
@@ -591,8 +597,8 @@ int xor_hd_decode(xor_code_t *code_desc, char **data, char **parity, int *missin
     {
       int *missing_data = get_missing_data(code_desc, missing_idxs);
       int *missing_parity = get_missing_parity(code_desc, missing_idxs);
-      decode_one_data(code_desc, data, parity, missing_data, missing_parity, blocksize);
-      if (decode_parity) {
+      ret = decode_one_data(code_desc, data, parity, missing_data, missing_parity, blocksize);
+      if (ret == 0 && decode_parity) {
         selective_encode(code_desc, data, parity, missing_parity, blocksize);
       }
       free(missing_parity);
@@ -603,8 +609,8 @@ int xor_hd_decode(xor_code_t *code_desc, char **data, char **parity, int *missin
     {
       int *missing_data = get_missing_data(code_desc, missing_idxs);
       int *missing_parity = get_missing_parity(code_desc, missing_idxs);
-      decode_one_data(code_desc, data, parity, missing_data, missing_parity, blocksize);
-      if (decode_parity) {
+      ret = decode_one_data(code_desc, data, parity, missing_data, missing_parity, blocksize);
+      if (ret == 0 && decode_parity) {
         selective_encode(code_desc, data, parity, missing_parity, blocksize);
       }
       free(missing_data);
@@ -616,7 +622,7 @@ int xor_hd_decode(xor_code_t *code_desc, char **data, char **parity, int *missin
       int *missing_data = get_missing_data(code_desc, missing_idxs);
       int *missing_parity = get_missing_parity(code_desc, missing_idxs);
       ret = decode_two_data(code_desc, data, parity, missing_data, missing_parity, blocksize);
-      if (decode_parity) {
+      if (ret == 0 && decode_parity) {
         selective_encode(code_desc, data, parity, missing_parity, blocksize);
       }
       free(missing_parity);
@@ -646,6 +652,8 @@ int xor_hd_decode(xor_code_t *code_desc, char **data, char **parity, int *missin
       break;
     case FAIL_PATTERN_GE_HD:
     default:
+      // More failures than this decoder knows how to repair
+      ret = -1;
       break;
   }
 
